@@ -61,3 +61,24 @@ func VerifFacts(t *RegexTree) (minLen, maxLen int, lead, trail NodeType, prefix 
 func (b *BmPrefix) VerifPattern() (pattern []rune, caseInsensitive, rightToLeft bool) {
 	return append([]rune(nil), b.pattern...), b.caseInsensitive, b.rightToLeft
 }
+
+// VerifNewBmPrefix exposes newBmPrefix (nil when the pattern has a rune above U+FFFF). The
+// pattern slice is copied first (the constructor lower-cases in place).
+func VerifNewBmPrefix(pattern []rune, caseInsensitive, rightToLeft bool) *BmPrefix {
+	return newBmPrefix(append([]rune(nil), pattern...), caseInsensitive, rightToLeft)
+}
+
+// VerifTables returns copies of the Boyer-Moore tables (nil pages and a nil page table stay nil).
+func (b *BmPrefix) VerifTables() (positive, negativeASCII []int, negativeUnicode [][]int, lowASCII, highASCII rune) {
+	positive = append([]int(nil), b.positive...)
+	negativeASCII = append([]int(nil), b.negativeASCII...)
+	if b.negativeUnicode != nil {
+		negativeUnicode = make([][]int, len(b.negativeUnicode))
+		for i, p := range b.negativeUnicode {
+			if p != nil {
+				negativeUnicode[i] = append([]int(nil), p...)
+			}
+		}
+	}
+	return positive, negativeASCII, negativeUnicode, b.lowASCII, b.highASCII
+}
